@@ -3,6 +3,7 @@ import contextlib
 import io
 import itertools
 import json
+import sys
 import os
 import random
 import warnings
@@ -219,6 +220,27 @@ def _orderable(labels):
     return True
 
 
+def _cli_find(path, toks):
+    """run `signac find <toks>` in-process with the project directory as cwd; (sorted printed ids, exit code)"""
+    import signac.__main__ as M
+
+    out, err = io.StringIO(), io.StringIO()
+    old_argv, old_cwd = sys.argv, os.getcwd()
+    code = 0
+    try:
+        os.chdir(path)
+        sys.argv = ["signac", "find"] + list(toks)
+        with contextlib.redirect_stdout(out), contextlib.redirect_stderr(err):
+            try:
+                M.main()
+            except SystemExit as e:
+                code = e.code if isinstance(e.code, int) else (0 if e.code is None else 1)
+    finally:
+        sys.argv = old_argv
+        os.chdir(old_cwd)
+    return sorted(x for x in out.getvalue().split() if x), code
+
+
 def _cli_tables(tokens):
     ints, floats, jsons = [], [], []
     for t in qc.uniq(tokens):
@@ -365,6 +387,12 @@ def run_case(case, ctx):
                         if (ids_c is None) != (ids_m is None) or (ids_c is not None and ids_c != ids_m):
                             fails.append("command line %r selects %s, the mapping %r selects %s"
                                          % (toks, line_c if ids_c is None else sorted(ids_c), want, line_m))
+                        # ... and through the real entry point `signac find <tokens>` (argparse + main_find)
+                        if ids_m is not None and all(not t.startswith("-") for t in toks):
+                            printed, code = _cli_find(project.path, toks)
+                            if code != 0 or printed != sorted(ids_m):
+                                fails.append("`signac find %s` exits %s and prints %s, the mapping %r selects %s"
+                                             % (" ".join(map(repr, toks)), code, printed, want, sorted(ids_m)))
                         if toks and all(t and not any(c.isspace() for c in t) for t in toks) and len(toks) != 1:
                             text = " ".join(toks)
                             with contextlib.redirect_stderr(io.StringIO()):
